@@ -59,26 +59,53 @@ def stmt_tok(s):
         return "w %s %s" % (cond_tok(s[1]), stmt_tok(s[2]))
     if k == "return":
         return "r " + atom_tok(s[1])
+    if k == "conv":
+        return "v %s %d %d" % (var_tok(s[1]), s[2], s[3])
+    if k == "calli":
+        # ('calli', x, xi, k, m, args, cs, d)
+        return "j %d %d %s %s %d %d %d %s" % (s[6], s[7], "-" if s[1] is None else var_tok(s[1]), var_tok(s[2]), s[3], s[4], len(s[5]),
+                                              " ".join(atom_tok(a) for a in s[5]))
     raise ValueError(s)
 
 
 def expand(p):
     """nested call arguments ('nest', h, args) are a spelling of `tmp = h(args); f(.., tmp, ..)` with a fresh local"""
+    def lift(alist, ctr, pre):
+        args = []
+        for a in alist:
+            if isinstance(a, tuple) and a[0] == "nest":
+                ctr[0] += 1
+                tmp = ("L", 90 + ctr[0])
+                inner = lift(a[2], ctr, pre)
+                pre.append(("call", tmp, a[1], inner, a[3]))
+                args.append(tmp)
+            elif isinstance(a, tuple) and a[0] == "conv":
+                ctr[1] += 1
+                tmp = ("L", 70 + ctr[1])
+                pre.append(("conv", tmp, a[1], a[2]))
+                args.append(tmp)
+            else:
+                args.append(a)
+        return args
+
     def go(s, ctr):
         k = s[0]
         if k == "seq":
             return ("seq", go(s[1], ctr), go(s[2], ctr))
         if k == "call":
-            pre, args = [], []
-            for a in s[3]:
-                if isinstance(a, tuple) and a[0] == "nest":
-                    ctr[0] += 1
-                    tmp = ("L", 90 + ctr[0])
-                    pre.append(("call", tmp, a[1], list(a[2]), a[3]))
-                    args.append(tmp)
-                else:
-                    args.append(a)
+            pre = []
+            args = lift(s[3], ctr, pre)
             return seq(pre + [("call", s[1], s[2], args, s[4])])
+        if k == "calli":
+            pre = []
+            args = lift(s[5], ctr, pre)
+            return seq(pre + [("calli", s[1], s[2], s[3], s[4], args, s[6], s[7])])
+        if k == "assign" and isinstance(s[2], tuple) and s[2][0] == "conv":
+            return ("conv", s[1], s[2][1], s[2][2])
+        if k == "return" and isinstance(s[1], tuple) and s[1][0] == "conv":
+            ctr[1] += 1
+            tmp = ("L", 70 + ctr[1])
+            return ("seq", ("conv", tmp, s[1][1], s[1][2]), ("return", tmp))
         if k == "if":
             return ("if", s[1], go(s[2], ctr), go(s[3], ctr))
         if k == "while":
@@ -87,7 +114,7 @@ def expand(p):
     q = dict(p)
     q["funcs"] = []
     for fd in p["funcs"]:
-        q["funcs"].append(dict(fd, body=go(fd["body"], [0])))
+        q["funcs"].append(dict(fd, body=go(fd["body"], [0, 0])))
     return q
 
 
@@ -96,6 +123,10 @@ def prog_line(p, ctr=()):
     out = ["P", str(len(p["ginit"]))] + ["1" if b else "0" for b in p["ginit"]] + [str(len(p["funcs"]))]
     for f, fd in enumerate(p["funcs"]):
         out += ["F", str(fd["nparams"]), str(fd["pkg"]), "1" if f in ctr else "0", stmt_tok(fd["body"])]
+    if p.get("impls"):
+        out += ["I", str(len(p["impls"]))]
+        for im in p["impls"]:
+            out += [str(len(im["funcs"]))] + [str(f) for f in im["funcs"]]
     return " ".join(" ".join(out).split())
 
 
@@ -169,6 +200,12 @@ def locals_of(s, acc=None):
         c(s[1]); locals_of(s[2], acc)
     elif k == "return":
         v(s[1])
+    elif k == "conv":
+        v(s[1])
+    elif k == "calli":
+        v(s[1]); v(s[2])
+        for a in s[5]:
+            v(a)
     return acc
 
 
@@ -189,6 +226,8 @@ def derefs_of(p):
             go(s[1], f); go(s[2], f)
         elif k == "deref":
             out.append((s[1], f))
+        elif k == "calli":
+            out.append((s[7], f))
         elif k == "if":
             c(s[1], f); go(s[2], f); go(s[3], f)
         elif k == "while":
@@ -222,11 +261,33 @@ class Printer:
         return "%s/%s/p%d" % (MODULE, self.name, k)
 
     def fname(self, f):
-        return ("M%d" if self.p["funcs"][f].get("method") else "F%d") % f
+        fd = self.p["funcs"][f]
+        if fd.get("impl"):
+            j, m = fd["impl"]
+            return "X%dx%d" % (self.p["impls"][j]["iface"], m)
+        return ("M%d" if fd.get("method") else "F%d") % f
+
+    def tyname(self, ty, k):
+        """Go type of a MiniGo type: 'T' -> *T, ('I', i) -> I<i> (declared in package 0)"""
+        q = "" if k == 0 else self.pkgname(0) + "."
+        if ty == "T":
+            return "*" + q + "T"
+        return "%sI%d" % (q, ty[1])
+
+    def implname(self, j, k):
+        ip = self.p["impls"][j]["pkg"]
+        return ("" if ip == k else self.pkgname(ip) + ".") + "S%d" % j
+
+    def ltype(self, fd, n):
+        if n < fd["nparams"]:
+            return (fd.get("ptypes") or ["T"] * fd["nparams"])[n]
+        return (fd.get("ltypes") or {}).get(n, "T")
 
     def var(self, v, k):
         if v[0] == "L":
-            return ("p%d" if v[1] < self.cur_np else "x%d") % v[1]
+            if v[1] < self.cur_np:
+                return "p%d" % v[1]
+            return ("x%d" if self.ltype(self.cur_fd, v[1]) == "T" else "y%d") % v[1]
         gk = self.p["gpkg"][v[1]]
         return ("G%d" % v[1]) if gk == k else "%s.G%d" % (self.pkgname(gk), v[1])
 
@@ -236,12 +297,33 @@ class Printer:
             return "nil", []
         if isinstance(a, tuple) and a[0] == "nest":
             return self.callexpr(a[1], a[2], k, a[3])
+        if isinstance(a, tuple) and a[0] == "conv":
+            return self.convexpr(a[1], a[2], k), []
         if a == "new":
             return ["&%s{}", "new(%s)"][self.pick(2)] % self.T(k), []
         return self.var(a, k), []
 
     def T(self, k):
         return "T" if k == 0 else self.pkgname(0) + ".T"
+
+    def convexpr(self, ik, j, k):
+        """a value of the concrete type S_j where an interface is expected (an implicit conversion)"""
+        im = self.p["impls"][j]
+        if im.get("valrecv") and self.pick(2) == 1:
+            return "%s{}" % self.implname(j, k)
+        return "&%s{}" % self.implname(j, k)
+
+    def calliexpr(self, xi, ik, m, args, k, cs):
+        head = self.var(xi, k)
+        text = head + ".X%dx%d(" % (ik, m)
+        sites = []
+        for i, a in enumerate(args):
+            if i:
+                text += ", "
+            t, ss = self.atom(a, k)
+            sites += [(c, oc + len(text), oa + len(text), ff) for c, oc, oa, ff in ss]
+            text += t
+        return text + ")", sites
 
     def callexpr(self, f, args, k, cs):
         fd = self.p["funcs"][f]
@@ -343,7 +425,8 @@ class Printer:
         elif kind == "deref":
             x = self.var(s[2], k)
             pre = "%srt.Use(" % t
-            self.emit(pre + x + ".V)", [(s[1], len(pre))])
+            fld = ".W)" if (self.cur_fd.get("impl") and s[2] == ("L", 0)) else ".V)"
+            self.emit(pre + x + fld, [(s[1], len(pre))])
         elif kind == "if":
             self.if_stmt(s, k, ind)
         elif kind == "while":
@@ -354,6 +437,13 @@ class Printer:
             self.emit(t + "}")
         elif kind == "return":
             self.emit("%sreturn %s" % (t, self.atom(s[1], k)[0]))
+        elif kind == "conv":
+            self.emit("%s%s = %s" % (t, self.var(s[1], k), self.convexpr(s[2], s[3], k)))
+        elif kind == "calli":
+            lhs = "_" if s[1] is None else self.var(s[1], k)
+            ct, sites = self.calliexpr(s[2], s[3], s[4], s[5], k, s[6])
+            pre = t if (s[1] is None and self.pick(2) == 1) else "%s%s = " % (t, lhs)
+            self.emit(pre + ct, derefs=[(s[7], len(pre))], calls=[(c, oc + len(pre), oa + len(pre), ff) for c, oc, oa, ff in sites])
 
     def if_stmt(self, s, k, ind):
         t = "\t" * ind
@@ -408,8 +498,17 @@ class Printer:
             self.emit("var _ = rt.Opaque")
             if k == 0:
                 self.emit("type T struct{ V int }")
+                for ik, itf in enumerate(p.get("ifaces") or []):
+                    self.emit("")
+                    self.emit("type I%d interface {" % ik)
+                    for m, md in enumerate(itf["methods"]):
+                        self.emit("\tX%dx%d(%s) *T" % (ik, m, ", ".join("a%d %s" % (i, self.tyname(ty, 0)) for i, ty in enumerate(md["ptypes"]))))
+                    self.emit("}")
             else:
                 self.emit("var _ *%s" % self.T(k))
+            for j, im in enumerate(p.get("impls") or []):
+                if im["pkg"] == k:
+                    self.emit("type S%d struct{ W int }" % j)
             for g, gk in enumerate(p["gpkg"]):
                 if gk == k:
                     if p["ginit"][g]:
@@ -428,15 +527,26 @@ class Printer:
                 if fd["pkg"] != k:
                     continue
                 self.cur_np = fd["nparams"]
-                params = ["p%d *%s" % (i, self.T(k)) for i in range(fd["nparams"])]
-                if fd.get("method"):
-                    self.emit("func (p0 *T) %s(%s) *T {" % (self.fname(f), ", ".join(params[1:])))
+                self.cur_fd = fd
+                ptypes = fd.get("ptypes") or ["T"] * fd["nparams"]
+                params = ["p%d %s" % (i, self.tyname(ptypes[i], k)) for i in range(fd["nparams"])]
+                rty = self.tyname(fd.get("rtype", "T"), k)
+                if fd.get("impl"):
+                    j, m = fd["impl"]
+                    recv = ("p0 S%d" if p["impls"][j].get("valrecv") else "p0 *S%d") % j
+                    self.emit("func (%s) %s(%s) %s {" % (recv, self.fname(f), ", ".join(params[1:]), rty))
+                elif fd.get("method"):
+                    self.emit("func (p0 *T) %s(%s) %s {" % (self.fname(f), ", ".join(params[1:]), rty))
                 else:
-                    self.emit("func %s(%s) *%s {" % (self.fname(f), ", ".join(params), self.T(k)))
+                    self.emit("func %s(%s) %s {" % (self.fname(f), ", ".join(params), rty))
                 ls = sorted(x for x in locals_of(fd["body"]) if x >= fd["nparams"])
-                if ls:
-                    self.emit("\tvar %s *%s" % (", ".join("x%d" % x for x in ls), self.T(k)))
-                    self.emit("\t%s = %s" % (", ".join("_" for _ in ls), ", ".join("x%d" % x for x in ls)))
+                bytype = {}
+                for x in ls:
+                    bytype.setdefault(self.tyname(self.ltype(fd, x), k), []).append(x)
+                for tn in sorted(bytype):
+                    names = [("x%d" if tn.startswith("*") else "y%d") % x for x in bytype[tn]]
+                    self.emit("\tvar %s %s" % (", ".join(names), tn))
+                    self.emit("\t%s = %s" % (", ".join("_" for _ in names), ", ".join(names)))
                 self.stmt(fd["body"], k, 1)
                 if falls(fd["body"]):
                     self.emit("\treturn nil")
@@ -458,6 +568,9 @@ class Printer:
                     deps.add(fd["pkg"])
                 for a in x[2]:
                     v(a)
+            if isinstance(x, tuple) and x[0] == "conv":
+                if p["impls"][x[2]]["pkg"] != k:
+                    deps.add(p["impls"][x[2]]["pkg"])
 
         def c(cc):
             if cc[0] == "nonnil":
@@ -490,6 +603,14 @@ class Printer:
                 c(s[1]); go(s[2])
             elif kind == "return":
                 v(s[1])
+            elif kind == "conv":
+                v(s[1])
+                if p["impls"][s[3]]["pkg"] != k:
+                    deps.add(p["impls"][s[3]]["pkg"])
+            elif kind == "calli":
+                v(s[1]); v(s[2])
+                for a in s[5]:
+                    v(a)
 
         for fd in p["funcs"]:
             if fd["pkg"] == k:
